@@ -90,6 +90,21 @@ def generate(rng, tier, seed):
                     c.pred("retail MAC = ISO 9797-1 algorithm 3 (related keys)",
                            lambda rep, r=r, i=i: None if (r.ok and rep[i] == "ok\t" + enc_b(r.value)) else f"{r.value.hex() if r.ok else r.err} != {rep[i]}")
                     yield c
+    # every ordered pair of keys spelt from the same two 8-byte components: A, B, AA, AB, BA, BB, AAA, AAB, ... BBB (14 x 14 pairs).
+    # A 16-byte TDES key A|B stands for A|B|A - not A|B|B - so a short cut that compares the two keys "as TDES keys" (canonical
+    # form, components, check value) must tell A|B from A|B|B and A|B|A from A|B; both keys count in algorithm 3 whatever they share
+    import itertools as _it
+    ca, cb = rb(rng, 8), rb(rng, 8)
+    words = [b"".join(w) for n in (1, 2, 3) for w in _it.product((ca, cb), repeat=n)]
+    for n_, (k1, k2) in enumerate(_it.product(words, repeat=2)):
+        padding = 1 + n_ % 3
+        data = rb(rng, (13, 8, 24)[n_ % 3])
+        c = Case("retail_mac:keys-from-two-components", {"k1": len(k1), "k2": len(k2), "padding": padding})
+        r = c.call("mac.generate_retail_mac", k1, k2, data, padding, None)
+        i = c.line(f"spec.mac3\t{enc_b(k1)}\t{enc_b(k2)}\ti:{padding}\t{enc_b(data)}\ti:8")
+        c.pred("retail MAC = ISO 9797-1 algorithm 3 (keys spelt from the same components)",
+               lambda rep, r=r, i=i: None if (r.ok and rep[i] == "ok\t" + enc_b(r.value)) else f"{r.value.hex() if r.ok else r.err} != {rep[i]}")
+        yield c
     # key pairs with the same key check value (corpus/C07/kcv_collisions.jsonl, built with the `cryptography` package): different keys
     # that an "are these the same key?" test by check value confuses - for the retail MAC both keys count, whatever they have in common
     import json as _json
